@@ -52,6 +52,14 @@ type VerifC05LiveFunc struct {
 	Resumables []int    // sorted indexes with varResumables[name] == true
 	PtrVars    []int    // sorted indexes of locals whose type HasPointers (never saved, see var.go)
 	Body       string   // the abstract body
+
+	// The same body with every expression occurrence tagged ("t<k>" after the flag, k = 1, 2, …
+	// in serialisation order) and, per tag, what the occurrence does, for the executable model
+	// of /verif/lean/WuffsVerif/Model/SplitRun.lean ("<tag> <kind> …", see verifC05Describe).
+	TBody    string
+	Ops      []string
+	Statuses []string // status code (the value of a returned status) -> canonical name; [0] = "ok"
+	Untied   string   // non-empty: the first construct that the executable model does not cover
 }
 
 // VerifC05ReadMethod is one row of readMethods.
@@ -188,6 +196,17 @@ func verifC05LiveFunc(tm *t.Map, files []*a.File, f *a.Func) (ret VerifC05LiveFu
 	ret.NumCSPs = s.numCSPs
 	ret.NumLoops = s.numLoops
 	ret.Body = s.b.String()
+
+	// Once more, tagged and with descriptions.
+	ts := &verifC05Serialiser{tm: tm, vars: s.vars, tagged: true, files: files, fn: f, statuses: verifC05PkgStatuses(tm, files)}
+	if err := ts.block(f.Body()); err != nil {
+		ret.Untied = "serialiser: " + err.Error()
+		return ret
+	}
+	ret.TBody = ts.b.String()
+	ret.Ops = ts.ops
+	ret.Statuses = ts.statuses
+	ret.Untied = ts.untied
 	return ret
 }
 
@@ -198,6 +217,22 @@ type verifC05Serialiser struct {
 	b        strings.Builder
 	numCSPs  int
 	numLoops int
+
+	// tagged mode
+	tagged   bool
+	files    []*a.File
+	fn       *a.Func
+	nextTag  int
+	role     verifC05Role // of the next expression passed to ex
+	ops      []string
+	statuses []string
+	untied   string
+}
+
+// verifC05Role says where an expression occurrence stands, i.e. how it is described.
+type verifC05Role struct {
+	kind   byte    // 0 pure value, 'l' LHS of an assignment, 'y' yielded status, 'x' not covered
+	assign *a.Assign // 'l', and a pure RHS of an op-assignment to a local
 }
 
 func (s *verifC05Serialiser) tok(x string) {
@@ -263,6 +298,12 @@ func (s *verifC05Serialiser) ex(n *a.Expr) error {
 	s.tok("(")
 	s.tok("E")
 	s.tok(flag)
+	if s.tagged {
+		s.nextTag++
+		s.tok(fmt.Sprintf("t%d", s.nextTag))
+		s.describe(s.nextTag, n, s.role)
+		s.role = verifC05Role{}
+	}
 	for _, v := range vs {
 		s.tok(fmt.Sprint(v))
 	}
@@ -336,9 +377,13 @@ func (s *verifC05Serialiser) stmt(o *a.Node) error {
 			s.tok("V")
 			s.tok(fmt.Sprint(i))
 			s.tok(")")
-		} else if err := s.ex(lhs); err != nil {
-			return err
+		} else {
+			s.role = verifC05Role{kind: 'l', assign: n}
+			if err := s.ex(lhs); err != nil {
+				return err
+			}
 		}
+		s.role = verifC05Role{assign: n}
 		if err := s.ex(n.RHS()); err != nil {
 			return err
 		}
@@ -356,6 +401,7 @@ func (s *verifC05Serialiser) stmt(o *a.Node) error {
 		n := o.AsIOManip()
 		s.tok("(")
 		s.tok("M")
+		s.role = verifC05Role{kind: 'x'}
 		if err := s.ex(n.IO()); err != nil {
 			return err
 		}
@@ -411,6 +457,7 @@ func (s *verifC05Serialiser) stmt(o *a.Node) error {
 		case t.IDYield:
 			s.tok("y")
 			s.numCSPs++
+			s.role = verifC05Role{kind: 'y'}
 		default:
 			return fmt.Errorf("unrecognized ast.Ret keyword")
 		}
@@ -452,4 +499,403 @@ func (s *verifC05Serialiser) stmt(o *a.Node) error {
 	}
 	// Other kinds (assert, choose) are not looked at by the analysis.
 	return nil
+}
+
+// ---- descriptions for the executable model (tagged mode)
+//
+//	<tag> P <expr>            a pure value (condition, right-hand side, returned status code)
+//	<tag> M <bop> <width>     (additionally, same tag) the operator of `local op= rhs`
+//	<tag> F <i> <bop|set> <w> the left-hand side `this.<field i>` of an assignment
+//	<tag> R <size> <n> <b|l>  args.src.read_…?(): a row of readMethods
+//	<tag> K <expr> | K1       args.src.skip?/skip_u32?(n: expr) | (n: 1)
+//	<tag> W <expr>            args.dst.write_u8?(a: expr)
+//	<tag> YR | YW             the status of yield? base."$short read" | base."$short write"
+//	<tag> C <name> <k> <expr>{k}  this.<name>?(…): a nested coroutine call; its k arguments that are
+//	                          not I/O streams (those must be args.… passed through)
+//	<tag> U                   not covered (the function is then not run by the model)
+//
+//	expr := k<decimal> | v<local index> | f<field index> | a<argument index> | ( <bop> <width> expr expr )
+//	        (argument index: among the function's arguments that are not I/O streams)
+//	bop  := add sub mul madd msub mmul mshl shl shr and or xor lt le gt ge eq ne land lor
+
+func (s *verifC05Serialiser) unsupported(tag int, why string) {
+	if s.untied == "" {
+		s.untied = why
+	}
+	s.ops = append(s.ops, fmt.Sprintf("%d U", tag))
+}
+
+func verifC05Width(typ *a.TypeExpr) int {
+	if typ == nil || typ.Decorator() != 0 {
+		return 0
+	}
+	if qid := typ.QID(); qid[0] == t.IDBase {
+		switch qid[1] {
+		case t.IDU8:
+			return 8
+		case t.IDU16:
+			return 16
+		case t.IDU32:
+			return 32
+		case t.IDU64:
+			return 64
+		}
+	}
+	return 0
+}
+
+var verifC05BinOps = map[t.ID]string{
+	t.IDXBinaryPlus:           "add",
+	t.IDXBinaryMinus:          "sub",
+	t.IDXBinaryStar:           "mul",
+	t.IDXBinaryShiftL:         "shl",
+	t.IDXBinaryShiftR:         "shr",
+	t.IDXBinaryAmp:            "and",
+	t.IDXBinaryPipe:           "or",
+	t.IDXBinaryHat:            "xor",
+	t.IDXBinaryTildeModPlus:   "madd",
+	t.IDXBinaryTildeModMinus:  "msub",
+	t.IDXBinaryTildeModStar:   "mmul",
+	t.IDXBinaryTildeModShiftL: "mshl",
+	t.IDXBinaryNotEq:          "ne",
+	t.IDXBinaryLessThan:       "lt",
+	t.IDXBinaryLessEq:         "le",
+	t.IDXBinaryEqEq:           "eq",
+	t.IDXBinaryGreaterEq:      "ge",
+	t.IDXBinaryGreaterThan:    "gt",
+	t.IDXBinaryAnd:            "land",
+	t.IDXBinaryOr:             "lor",
+	t.IDXAssociativePlus:      "add",
+	t.IDXAssociativeStar:      "mul",
+	t.IDXAssociativeAmp:       "and",
+	t.IDXAssociativePipe:      "or",
+	t.IDXAssociativeHat:       "xor",
+	t.IDXAssociativeAnd:       "land",
+	t.IDXAssociativeOr:        "lor",
+}
+
+// needs a width: the modular operators
+var verifC05NeedsWidth = map[string]bool{"madd": true, "msub": true, "mmul": true, "mshl": true}
+
+func (s *verifC05Serialiser) fieldIndex(name t.ID) int {
+	recv := s.fn.Receiver()
+	for _, file := range s.files {
+		for _, n := range file.TopLevelDecls() {
+			if n.Kind() != a.KStruct {
+				continue
+			}
+			st := n.AsStruct()
+			if st.QID()[1] != recv[1] {
+				continue
+			}
+			for i, f := range st.Fields() {
+				if f.AsField().Name() == name {
+					return i
+				}
+			}
+		}
+	}
+	return -1
+}
+
+// verifC05PkgStatuses: "ok", then the package's own statuses in declaration order (so that a status
+// code means the same in a callee and in its caller).
+func verifC05PkgStatuses(tm *t.Map, files []*a.File) []string {
+	ret := []string{"ok"}
+	for _, file := range files {
+		for _, n := range file.TopLevelDecls() {
+			if n.Kind() != a.KStatus {
+				continue
+			}
+			if msg, ok := t.Unescape(n.AsStatus().QID()[1].Str(tm)); ok && msg != "" {
+				ret = append(ret, strings.ReplaceAll(msg, " ", "_"))
+			}
+		}
+	}
+	return ret
+}
+
+// argIndex: the index of args.<name> among the function's arguments that are not I/O streams.
+func (s *verifC05Serialiser) argIndex(name t.ID) int {
+	i := 0
+	for _, o := range s.fn.In().Fields() {
+		f := o.AsField()
+		if f.XType().IsIOTokenType() {
+			continue
+		}
+		if f.Name() == name {
+			if verifC05Width(f.XType()) == 0 {
+				return -1
+			}
+			return i
+		}
+		i++
+	}
+	return -1
+}
+
+// wexpr serialises a pure expression; "" if it has a construct outside the little language.
+func (s *verifC05Serialiser) wexpr(n *a.Expr, depth int) string {
+	if n == nil || depth > 64 {
+		return ""
+	}
+	if cv := n.ConstValue(); cv != nil {
+		if cv.Sign() < 0 {
+			return ""
+		}
+		return "k" + cv.String()
+	}
+	op := n.Operator()
+	switch {
+	case op == 0:
+		if i, ok := s.vars[n.Ident()]; ok && verifC05Width(n.MType()) != 0 {
+			return fmt.Sprintf("v%d", i)
+		}
+		return ""
+	case op == t.IDDot:
+		if lhs := n.LHS().AsExpr(); lhs.Operator() == 0 && lhs.Ident() == t.IDThis && verifC05Width(n.MType()) != 0 {
+			if i := s.fieldIndex(n.Ident()); i >= 0 {
+				return fmt.Sprintf("f%d", i)
+			}
+		} else if lhs.Operator() == 0 && lhs.Ident() == t.IDArgs && verifC05Width(n.MType()) != 0 {
+			if i := s.argIndex(n.Ident()); i >= 0 {
+				return fmt.Sprintf("a%d", i)
+			}
+		}
+		return ""
+	case op == t.IDXBinaryAs:
+		// a conversion between the unsigned integer types never changes the value (the checker
+		// has proved that it fits)
+		if verifC05Width(n.MType()) == 0 {
+			return ""
+		}
+		return s.wexpr(n.LHS().AsExpr(), depth+1)
+	case op.IsXBinaryOp():
+		name, ok := verifC05BinOps[op]
+		if !ok {
+			return ""
+		}
+		w := verifC05Width(n.MType())
+		if w == 0 && verifC05NeedsWidth[name] {
+			return ""
+		}
+		l, r := s.wexpr(n.LHS().AsExpr(), depth+1), s.wexpr(n.RHS().AsExpr(), depth+1)
+		if l == "" || r == "" {
+			return ""
+		}
+		return fmt.Sprintf("( %s %d %s %s )", name, w, l, r)
+	case op.IsXAssociativeOp():
+		name, ok := verifC05BinOps[op]
+		if !ok || len(n.Args()) < 2 {
+			return ""
+		}
+		w := verifC05Width(n.MType())
+		acc := ""
+		for i, o := range n.Args() {
+			if o.Kind() != a.KExpr {
+				return ""
+			}
+			x := s.wexpr(o.AsExpr(), depth+1)
+			if x == "" {
+				return ""
+			}
+			if i == 0 {
+				acc = x
+			} else {
+				acc = fmt.Sprintf("( %s %d %s %s )", name, w, acc, x)
+			}
+		}
+		return acc
+	}
+	return ""
+}
+
+// statusName: the canonical name of a status-typed constant expression ("" if it is not one).
+func (s *verifC05Serialiser) statusName(n *a.Expr) string {
+	if n == nil || n.MType() == nil || !n.MType().IsStatus() {
+		return ""
+	}
+	if n.ConstValue() != nil {
+		return "ok"
+	}
+	lit := t.ID(0)
+	switch n.Operator() {
+	case 0:
+		lit = n.Ident()
+	case t.IDDot:
+		if lhs := n.LHS().AsExpr(); lhs.Operator() == 0 && lhs.Ident() == t.IDBase {
+			lit = n.Ident()
+		}
+	}
+	if lit == 0 || !lit.IsDQStrLiteral(s.tm) {
+		return ""
+	}
+	msg, ok := t.Unescape(lit.Str(s.tm))
+	if !ok || msg == "" {
+		return ""
+	}
+	return strings.ReplaceAll(msg, " ", "_")
+}
+
+func (s *verifC05Serialiser) describe(tag int, n *a.Expr, role verifC05Role) {
+	add := func(format string, args ...interface{}) {
+		s.ops = append(s.ops, fmt.Sprintf("%d ", tag)+fmt.Sprintf(format, args...))
+	}
+	switch role.kind {
+	case 'x':
+		s.unsupported(tag, "io manipulation block")
+		return
+	case 'y':
+		switch s.statusName(n) {
+		case "$short_read":
+			add("YR")
+		case "$short_write":
+			add("YW")
+		default:
+			s.unsupported(tag, "yield of something other than $short read / $short write")
+		}
+		return
+	case 'l':
+		// the left-hand side of an assignment that is not a plain local
+		opName := "set"
+		if op := role.assign.Operator(); op != t.IDEq {
+			opName = verifC05BinOps[op.BinaryForm()]
+		}
+		w := verifC05Width(n.MType())
+		if n.Operator() == t.IDDot && opName != "" && w != 0 {
+			if lhs := n.LHS().AsExpr(); lhs.Operator() == 0 && lhs.Ident() == t.IDThis {
+				if i := s.fieldIndex(n.Ident()); i >= 0 {
+					add("F %d %s %d", i, opName, w)
+					return
+				}
+			}
+		}
+		s.unsupported(tag, "assignment to something other than a local or a this.field of unsigned integer type")
+		return
+	}
+
+	if n.Effect().Coroutine() {
+		if n.Operator() != a.ExprOperatorCall {
+			s.unsupported(tag, "coroutine expression that is not a call")
+			return
+		}
+		method := n.LHS().AsExpr()
+		recv := method.LHS().AsExpr()
+		if !recv.MType().IsIOTokenType() {
+			// this.<name>?(…) as a statement: the callee's I/O arguments are this function's,
+			// passed through; the others are expressions
+			if role.assign != nil && (role.assign.LHS() != nil || role.assign.Operator() != t.IDEq) {
+				s.unsupported(tag, "nested coroutine call whose status is assigned (the =? idiom)")
+				return
+			}
+			if recv.Operator() != 0 || recv.Ident() != t.IDThis {
+				s.unsupported(tag, "nested coroutine call on something other than this")
+				return
+			}
+			exprs := []string(nil)
+			for _, o := range n.Args() {
+				v := o.AsArg().Value()
+				if v.MType().IsIOTokenType() {
+					if v.Operator() != t.IDDot || v.LHS().AsExpr().Operator() != 0 || v.LHS().AsExpr().Ident() != t.IDArgs {
+						s.unsupported(tag, "nested coroutine call with an I/O argument that is not args.…")
+						return
+					}
+					continue
+				}
+				e := s.wexpr(v, 0)
+				if e == "" {
+					s.unsupported(tag, "argument of a nested coroutine call")
+					return
+				}
+				exprs = append(exprs, e)
+			}
+			add("C %s %d %s", method.Ident().Str(s.tm), len(exprs), strings.Join(exprs, " "))
+			return
+		}
+		// the receiver is the function's only argument of that I/O type
+		isArgs := func(typ t.ID) bool {
+			if recv.Operator() != t.IDDot {
+				return false
+			}
+			if l := recv.LHS().AsExpr(); l.Operator() != 0 || l.Ident() != t.IDArgs {
+				return false
+			}
+			count := 0
+			for _, o := range s.fn.In().Fields() {
+				if x := o.AsField().XType(); x.Decorator() == 0 && x.QID() == (t.QID{t.IDBase, typ}) {
+					count++
+				}
+			}
+			return count == 1
+		}
+		switch recv.MType().QID()[1] {
+		case t.IDIOReader:
+			if !isArgs(t.IDIOReader) {
+				break
+			}
+			id := method.Ident()
+			if id == t.IDSkip || id == t.IDSkipU32 {
+				x := n.Args()[0].AsArg().Value()
+				if cv := x.ConstValue(); cv != nil && cv.Cmp(one) == 0 {
+					add("K1")
+				} else if e := s.wexpr(x, 0); e != "" {
+					add("K %s", e)
+				} else {
+					s.unsupported(tag, "skip argument")
+				}
+				return
+			}
+			if id >= readMethodsBase {
+				if m := id - readMethodsBase; m < t.ID(len(readMethods)) {
+					if p := readMethods[m]; p.n != 0 {
+						add("R %d %d %c", p.size, p.n, p.endianness)
+						return
+					}
+				}
+			}
+		case t.IDIOWriter:
+			if !isArgs(t.IDIOWriter) {
+				break
+			}
+			if method.Ident() == t.IDWriteU8 {
+				if e := s.wexpr(n.Args()[0].AsArg().Value(), 0); e != "" {
+					add("W %s", e)
+				} else {
+					s.unsupported(tag, "write_u8 argument")
+				}
+				return
+			}
+		}
+		s.unsupported(tag, "I/O method other than read_…?, skip?, skip_u32?, write_u8? on args.src / args.dst")
+		return
+	}
+
+	// a pure value
+	if name := s.statusName(n); name != "" {
+		for i, x := range s.statuses {
+			if x == name {
+				add("P k%d", i)
+				return
+			}
+		}
+		s.unsupported(tag, "status that the package does not declare: "+name)
+		return
+	}
+	e := s.wexpr(n, 0)
+	if e == "" {
+		s.unsupported(tag, "expression outside the modelled operators: "+n.Str(s.tm))
+		return
+	}
+	add("P %s", e)
+	if as := role.assign; as != nil && as.LHS() != nil && as.LHS().Operator() == 0 {
+		if op := as.Operator(); op != t.IDEq && op != t.IDEqQuestion {
+			name := verifC05BinOps[op.BinaryForm()]
+			w := verifC05Width(as.LHS().MType())
+			if name == "" || w == 0 {
+				s.unsupported(tag, "compound assignment operator")
+				return
+			}
+			add("M %s %d", name, w)
+		}
+	}
 }
